@@ -15,6 +15,7 @@ type TV struct {
 	Ty    types.Type
 	Tuple []TV // for multi-value results
 	Lit   bool // untyped integer literal (adapts to BV/Int)
+	LV    *LV  // call-site argument that is an interior pointer (element of a slice, field of a local): what it points to
 }
 
 type structInfo struct {
